@@ -1038,7 +1038,12 @@ func c18Chain(e *Env) {
 		return
 	}
 	ok1 := false
-	for _, c := range findCalls(mainFn, e.P.ModPath+"/internal/cmd.NewBuildCmd", false) {
+	// the call may live in a helper of package main that main (transitively) calls
+	var ncalls []ssa.CallInstruction
+	for _, f := range unitFns(mainFn, 2) {
+		ncalls = append(ncalls, findCalls(f, e.P.ModPath+"/internal/cmd.NewBuildCmd", false)...)
+	}
+	for _, c := range ncalls {
 		a := c.Common().Args[0]
 		if ld, ok := a.(*ssa.UnOp); ok {
 			if fa, ok := ld.X.(*ssa.FieldAddr); ok && fieldName(fa) == "GitVersion" {
